@@ -16,6 +16,10 @@ Qed.
 Lemma gen_dim_guard : gen_cached_dim_guard = true.
 Proof. vm_compute. reflexivity. Qed.
 
+(* post-filtered search falls back to the exact filtered search when it comes up short (F-C06-postfilter repaired) *)
+Lemma gen_fallback : gen_post_filter_fallback = true.
+Proof. vm_compute. reflexivity. Qed.
+
 Lemma gen_keep_spec : forall b, gen_keep b = negb (f_iszero b).
 Proof. intros b. unfold gen_keep. repeat match goal with |- context [if ?c then _ else _] => destruct c end; reflexivity. Qed.
 
